@@ -30,6 +30,7 @@ P08 == INSTANCE P_C08
 P12 == INSTANCE P_C12
 P13 == INSTANCE P_C13
 P14 == INSTANCE P_C14
+Dev == INSTANCE Deviations
 
 Mode == IF "MODE" \in DOMAIN IOEnv THEN IOEnv.MODE ELSE "L1"
 SeqToSet(s) == {s[i] : i \in 1..Len(s)}
@@ -60,6 +61,7 @@ MonInit == CASE Mode = "C03" -> P03!M0 [] Mode = "C05" -> P05!M0 [] Mode = "C06"
 Applies == CASE Mode = "C06" -> Strict(run.cfg) [] OTHER -> TRUE
 MonStep(e) ==
   IF ~Applies THEN m
+  ELSE IF e.ev = "recover" /\ Mode \in {"C03", "C06", "C07"} THEN [m EXCEPT !.live = FALSE]   \* these speak about next() sequences
   ELSE CASE Mode = "C03" -> P03!Step(c.sch, run.inp, run.cfg, m, e)
          [] Mode = "C05" -> P05!Step(c.sch, run.inp, run.cfg, m, e)
          [] Mode = "C06" -> P06!Step(c.sch, run.inp, run.cfg, m, e)
@@ -124,10 +126,30 @@ StepMon(e) ==
   LET m1 == IF e.ev = "read" THEN MonRead(e) ELSE MonStep(e) IN
   IF m1.ok THEN m' = m1 /\ UNCHANGED <<c, run, r, skip>>
   ELSE Reject(l, <<c.n, run.tag, m1.why>>) /\ skip' = TRUE /\ UNCHANGED <<c, run, r, m>>
+\* a rejected relation may be explained by a listed deviation (second look, only after a rejection)
+Explained(h, runs) ==
+  LET n == Len(runs) IN
+  IF Mode = "C08" /\ h.rel = "buf" /\ Dev!Listed("DEV_BUFFERED_EOF_NOCLOSE")
+       /\ \A i \in 2..n : (P08!Rel(runs[1].evs, runs[i].evs) # "" =>
+              /\ P08!FirstNonItem(runs[1].evs).res = "none"
+              /\ Dev!BufferedEofNoClose(runs[i].cfg, P08!FirstNonItem(runs[i].evs))
+              /\ P08!PrefixSame(P08!Unroll(P08!Items(runs[i].evs)), P08!Items(runs[1].evs), 1))
+       /\ \A j \in 2..n : P08!OnlyRequested(runs[j].evs, runs[j].cfg)
+  THEN "DEV_BUFFERED_EOF_NOCLOSE"
+  ELSE IF Mode = "C04" /\ h.rel = "sched" /\ Dev!Listed("DEV_BUFFERED_EOF_NOCLOSE")
+       /\ \A i \in 2..n : (P04!Rel(runs[1].evs, runs[i].evs) # "" =>
+              LET a == P04!Canon(runs[1].evs, 1, <<>>)  b == P04!Canon(runs[i].evs, 1, <<>>)
+                  d == CHOOSE k \in 1..(Len(b) + 1) : k > Len(b) \/ k > Len(a) \/ ~P04!ResSame(a[k], b[k]) IN
+              d <= Len(b) /\ Dev!BufferedEofNoClose(runs[i].cfg, b[d]) /\ \A k \in 1..(d - 1) : P04!ResSame(a[k], b[k]))
+  THEN "DEV_BUFFERED_EOF_NOCLOSE"
+  ELSE ""
 StepEnd(e) ==
-  LET why == IF Mode = "L1" \/ ~("rel" \in DOMAIN c.hdr) THEN "" ELSE Rel(c.hdr, CollectRuns(c.start + 1, l - 1, <<>>)) IN
+  LET runs == IF Mode = "L1" \/ ~("rel" \in DOMAIN c.hdr) THEN <<>> ELSE CollectRuns(c.start + 1, l - 1, <<>>)
+      why == IF runs = <<>> THEN "" ELSE Rel(c.hdr, runs) IN
   IF why = "" THEN UNCHANGED <<c, run, r, m, skip>>
-  ELSE Reject(l, <<c.n, "end", why>>) /\ skip' = TRUE /\ UNCHANGED <<c, run, r, m>>
+  ELSE LET dev == Explained(c.hdr, runs) IN
+       IF dev # "" THEN Known(l, dev, <<c.n, why>>) /\ UNCHANGED <<c, run, r, m, skip>>
+       ELSE Reject(l, <<c.n, "end", why>>) /\ skip' = TRUE /\ UNCHANGED <<c, run, r, m>>
 
 Next ==
   /\ l <= NRec
